@@ -34,7 +34,16 @@ def _view(clr, px):
             readable[c] = True
         except Exception:
             readable[c] = False
-    return {"b": {c: (_tag(b[c].values) if c in b.columns else 0) for c in COLS},
+    # every name the object shows resolves to the extent of the chromosome at that position (lengths 4, 3, 2, bin size 1)
+    ext = []
+    for nm in names:
+        try:
+            lo, hi = clr.extent(nm)
+            ext.append([int(lo), int(hi)])
+        except Exception:
+            ext.append([-1, -1])
+    return {"extents": ext,
+            "b": {c: (_tag(b[c].values) if c in b.columns else 0) for c in COLS},
             "p": {c: (_tag(p[c].values) if c in p.columns else 0) for c in COLS},
             "nv": NAMEVECS.index(names) + 1 if names in NAMEVECS else 0,
             "readable": readable,
